@@ -204,17 +204,13 @@ Theorem c02_subquery_selection_remove : forall dom c sqs forbidden sel,
 Proof. exact sel_remove_spec. Qed.
 
 (* The filters of one conjunct on one stream share one searchContext; every relation to sub-queries removes
-   its forbidden combinations; the conjunct matches iff something is left.  Proved: this is exactly
+   its forbidden combinations; the conjunct matches iff something is left.  This is exactly
    "some allowed combination of sub-query results is forbidden by none of the relations", i.e. the
-   existential meaning of sub-queries.
-   PARTIAL: for NUMBER and TIME relations the computation of the forbidden sets is modelled and proved exact
-   (c02_subquery_number_time_relation_exact below).  What remains given, not modelled: the forbidden sets of
-   HOST relations (byte compare under the mask per sub-query result, or per-host-group IP-version sets) and
-   of FLAG/protocol relations (xor table over the sub-query results).  With these filters as the given
-   [qp_filter] all theorems about the main search above apply unchanged, and the correspondence check
-   compares them on every generated case with the oracle's meaning "streams for the sub-queries exist such
-   that the formula holds". *)
-Theorem c02_subquery_relation_filters_partial : forall dom ops sel,
+   existential meaning of sub-queries.  How each condition type derives its forbidden sets from the previous
+   results is modelled and proved exact in the theorems that follow (number and time: any number of
+   sub-queries; host: the two-source form the engine accepts; flag/protocol: the stream and one sub-query, the
+   only form the parser builds -- FlagConditions over different sub-query sets are never merged). *)
+Theorem c02_subquery_relation_filters : forall dom ops sel,
   sel_wf dom sel -> Forall (op_ok dom) ops ->
   (rel_filters ops sel = true <->
    exists c, sel_allows dom c sel /\ Forall (fun op => ~ forbidden_by c (fst op) (snd op)) ops).
@@ -266,3 +262,41 @@ Example c02_negated_reference_to_never_matching_tag : forall base sid,
   exists d', inline_dnf wn_tags demorgan 1 [[CTag 0 (mkAccept false true false true)]] = Some d' /\
              length d' = 2 /\ eval_dnf wn_tags (pe base) sid d' = true.
 Proof. exact negated_empty_definition. Qed.
+
+(* HostCondition relating this stream's client/server host to the client/server host of one sub-query stream
+   (after 2c56518): byte compare under the mask of this stream's address family; different families never
+   match; when both masks are unspecified only the family is compared (the per-host-group sets).  The filter
+   answers true iff some allowed sub-query result satisfies  invert xor (same family and equal under the mask),
+   and leaves exactly those allowed. *)
+Theorem c02_subquery_host_relation_exact : forall dom sq invert masks_zero myh mask others sel,
+  In sq dom -> sel_wf dom sel -> sq_in_range sq (length others) sel ->
+  (masks_zero = true -> forallb (N.eqb 0) mask = true /\ ip_size myh /\ Forall ip_size others) ->
+  let r := host_filter invert masks_zero myh mask sq others sel in
+  (snd r = true <-> exists c, sel_allows dom c sel /\ host_cond invert myh mask (nth (c sq) others []) = true) /\
+  sel_wf dom (fst r) /\
+  (forall c, sel_allows dom c (fst r) <->
+             sel_allows dom c sel /\ host_cond invert myh mask (nth (c sq) others []) = true).
+Proof. exact host_filter_exact. Qed.
+
+(* FlagCondition (protocol:@a:protocol@ and its negation) over this stream and one sub-query: fulfilled when
+   own xor other <> value (all masked).  The xor table, its lookup and the two shortcuts answer true iff some
+   allowed sub-query result fulfils it, and then leave exactly those allowed. *)
+Theorem c02_subquery_flag_relation_exact : forall dom sq own value flags sel,
+  In sq dom -> sel_wf dom sel -> sel <> [] -> sq_in_range sq (length flags) sel ->
+  let good := fun p => negb (N.eqb (N.lxor own (nth p flags 0%N)) value) in
+  let r := flag_filter own value sq flags sel in
+  (snd r = true <-> exists c, sel_allows dom c sel /\ good (c sq) = true) /\
+  (snd r = true -> sel_wf dom (fst r) /\
+     forall c, sel_allows dom c (fst r) <-> sel_allows dom c sel /\ good (c sq) = true).
+Proof. exact flag_filter_exact. Qed.
+
+(* `-chost:@a:chost@/24` for 10.0.0.1 against [10.0.0.7; 10.0.1.5; fe80::1]: the last two differ; and
+   the raw flag condition `own xor other <> 0` (protocols differ) for a tcp stream against [tcp; udp; tcp]: the udp result stays *)
+Example c02_host_flag_relation_example :
+  let sel := [fun k : nat => match k with 0 => [0; 1; 2] | _ => [] end] in
+  map (fun m : selmap => m 0)
+      (fst (host_filter true false [10; 0; 0; 1]%N [255; 255; 255; 0]%N 0
+                        [[10; 0; 0; 7]; [10; 0; 1; 5]; [254; 128; 0; 0; 0; 0; 0; 0; 0; 0; 0; 0; 0; 0; 0; 1]]%N sel)) = [[1; 2]] /\
+  map (fun m : selmap => m 0) (fst (flag_filter 1 0 0 [1; 2; 1]%N sel)) = [[1]] /\
+  snd (flag_filter 1 0 0 [1; 1; 1]%N sel) = false.
+Proof. vm_compute. repeat split; reflexivity. Qed.
